@@ -32,6 +32,8 @@ SIG_B = "C14:F11b:constant-redeclared"
 SIG_C = "C14:F11c:field-vs-method"
 SIG_D = "C14:F11d:internal-ident-redeclared"
 SIG_E = "C14:F11e:method-redeclared"
+SIG_F = "C14:F11f:typedef-of-bool-tl2"
+SIG_G = "C14:F11g:empty-type-under-mask"
 
 CLASS_PATTERNS = [
     ("a", SIG_A, re.compile(r"case-insensitive (file name|import) collision")),
@@ -39,7 +41,14 @@ CLASS_PATTERNS = [
     ("c", SIG_C, re.compile(r"field and method with the same name")),
     ("d", SIG_D, re.compile(r"gen/internal/[^\s:]+\.go:\d+:\d+: \w+ redeclared in this block")),
     ("e", SIG_E, re.compile(r"method \w+\.\w+ already declared")),
+    ("f", SIG_F, re.compile(r"cannot use item\.ptr\(\) \(value of type \*bool\) as bool value in argument to basictl\.\w*TL2")),
+    ("g", SIG_G, re.compile(r"cannot use v \(variable of type bool\) as \w+ value in assignment")),
 ]
+MESSAGE_ONLY_CLASSES = {"f", "g"}     # not naming clashes: the model makes no prediction, the compiler message decides
+
+
+def error_lines(log):
+    return [l for l in log.splitlines() if re.search(r"\.go:\d+:\d+: ", l) and not l.startswith("\t")]
 
 
 def classify_build_failure(log):
@@ -316,6 +325,57 @@ class MutGen:
                     f"{ns}.{b} t:{ns}.{_up(a)} d:(dictionary {ns}.{_up(a)}) = {ns}.{_up(b)};"]
         return [f"{ns}.{a} n:# self:n.0?{ns}.{a} arr:n.1?(tuple {ns}.{a} 2) = {ns}.{_up(a)};"]
 
+    REC_KINDS = ["maybe", "vector", "mask-bare", "mask-boxed", "mask-vector", "dict"]
+
+    def rec_ref(self, kind, t, T, mask):
+        """a guarded reference to type t (boxed name T); mask = name of a # field declared earlier, or None"""
+        if kind == "maybe" or (mask is None and kind.startswith("mask")):
+            return f"(Maybe {t})"
+        if kind == "vector":
+            return f"(vector {t})"
+        if kind == "dict":
+            return f"(dictionary {T})"
+        bit = self.r.choice([0, 1, 5, 31])
+        return {"mask-bare": f"{mask}.{bit}?{t}", "mask-boxed": f"{mask}.{bit}?{T}", "mask-vector": f"{mask}.{bit}?(vector {T})"}[kind]
+
+    def rec_struct(self, kind, pos, name=None, target=None):
+        """one struct whose recursive field sits at position pos (0..4) among
+             flags:#  val:flags.0?int  size:#  arr:size*[int]  tail:flags.1?string
+        i.e. before / between / after the # fields that later fields use as a field mask and as a size"""
+        ns = self.ns
+        a = name or self.fresh("rec")
+        t = target or f"{ns}.{a}"
+        T = t.rpartition(".")[0] + "." + _up(t.rpartition(".")[2]) if "." in t else _up(t)
+        base = ["flags:#", "val:flags.0?int", "size:#", f"arr:size*[int]", "tail:flags.1?string"]
+        mask = "flags" if pos >= 1 else None
+        fields = base[:pos] + [f"next:{self.rec_ref(kind, t, T, mask)}"] + base[pos:]
+        if self.r.random() < 0.3:
+            fields.append(f"more:{self.rec_ref(self.r.choice(self.REC_KINDS), t, T, 'flags')}")
+        return f"{ns}.{a} {' '.join(fields)} = {ns}.{_up(a)};"
+
+    def recursion_positions(self, full=False):
+        """self-recursive structs: every kind of guarded reference x every position relative to the # fields
+        (full=True: the whole grid; otherwise a random handful), a recursive union, mutual recursion over 2-3 types"""
+        ns = self.ns
+        lines = []
+        grid = [(k, p) for k in self.REC_KINDS for p in range(6)]
+        if not full:
+            grid = self.r.sample(grid, 5)
+        for k, p in grid:
+            lines.append(self.rec_struct(k, min(p, 5)))
+        # recursive union: the recursive variant has its reference before / after a mask field
+        u = self.fresh("ru")
+        lines += [f"{ns}.{u}Nil = {ns}.{_up(u)};",
+                  f"{ns}.{u}Cons next:(Maybe {ns}.{_up(u)}) fm:# head:fm.0?int kids:fm.1?(vector {ns}.{_up(u)}) n:# arr:n*[int] = {ns}.{_up(u)};",
+                  f"{ns}.{u}Snoc fm:# head:fm.0?int next:fm.2?{ns}.{_up(u)} n:# arr:n*[{ns}.{_up(u)}] = {ns}.{_up(u)};"]
+        # mutual recursion across 2 and 3 types, the back reference at a random position
+        for n in (2, 3):
+            names = [self.fresh("mr") for _ in range(n)]
+            for i, a in enumerate(names):
+                nxt = names[(i + 1) % n]
+                lines.append(self.rec_struct(self.r.choice(self.REC_KINDS), self.r.randrange(6), name=a, target=f"{ns}.{nxt}"))
+        return lines
+
     def deep_templates(self):
         ns = self.ns
         a, b = self.fresh("box"), self.fresh()
@@ -360,7 +420,7 @@ class MutGen:
                 f"{ns}.{a}Use c:{ns}.{_up(a)}Color v:(vector {ns}.{_up(a)}Color) = {ns}.{_up(a)}Use;"] + extra
 
     BLOCKS = ["case_only", "ns_vs_underscore", "suffix_lookalikes", "digits_underscores", "derived_type_names", "keyword_fields",
-              "method_fields", "accessor_fields", "recursion", "deep_templates", "single_ctor_union", "masks_everywhere",
+              "method_fields", "accessor_fields", "recursion", "recursion_positions", "deep_templates", "single_ctor_union", "masks_everywhere",
               "function_names", "enum_names"]
 
     def text(self, blocks=None, base_types=3):
